@@ -139,6 +139,16 @@ def is_spec_instance(v):
     return hasattr(type(v), "__verif_id__")
 
 
+def field_ids(v):
+    """attribute ids held by a spec instance: the managed attributes plus stray `a<N>` entries of the instance
+    dictionary (a keyword merged into an instance of a class that does not manage it), sorted"""
+    managed = set(type(v).__verif_attrs__)
+    for k in v.__dict__:
+        if k[:1] == "a" and k[1:].isdigit() and int(k[1:]) not in managed:
+            managed.add(int(k[1:]))
+    return sorted(managed)
+
+
 def show(v) -> str:
     """Canonical rendering, identical to `showVal` of the Lean drivers."""
     if v is None:
@@ -176,7 +186,7 @@ def show(v) -> str:
     if is_spec_instance(v):
         cls = type(v)
         fields = []
-        for a in sorted(cls.__verif_attrs__):
+        for a in field_ids(v):
             x = v.__dict__.get(attr_name(a), _sc["MISSING"])
             if x is not _sc["MISSING"]:
                 fields.append(f"{a}={show(x)}")
@@ -214,7 +224,7 @@ def encode(v) -> str:
     if is_spec_instance(v):
         cls = type(v)
         fs = []
-        for a in sorted(cls.__verif_attrs__):
+        for a in field_ids(v):
             x = v.__dict__.get(attr_name(a), _sc["MISSING"])
             if x is not _sc["MISSING"]:
                 fs.append(f"{a} {encode(x)}")
@@ -435,7 +445,9 @@ def union_members(t):
 #               "d": value tokens|None, "prep": id|None, "ip": id|None}],
 #               (dk "prop": the attribute is backed by an overridable `spec_property` whose getter returns `d`:
 #                no default of its own, `getattr` without an override finds `d`)
-#    "over": {"<attr>": value tokens}}        # class-body default overrides of inherited attributes
+#    "over": {"<attr>": value tokens},        # class-body default overrides of inherited attributes
+#    "ovf": attr}                             # spec_class(init_overflow_attr=<attr>): extra constructor keywords
+#                                             # are collected into the Dict[str, Any] attribute <attr>
 
 
 def class_desc(fam, cid):
@@ -471,6 +483,33 @@ def effective_attrs(fam, cid):
                     pass
     for ad in cd.get("attrs", []):
         out.append(dict(ad, owner=cid))
+    if cd.get("ovf") is not None:
+        # `init_overflow_attr`: managed as Dict[str, Any], after the annotated attributes, no default
+        out.append({"name": cd["ovf"], "ty": OVF_TY, "dk": "none", "d": None, "prep": None, "ip": None,
+                    "owner": cid, "ovf": True})
+    return out
+
+
+OVF_TY = ["dict", ["str"], ["any"]]
+
+
+def effective_ovf(fam, cid):
+    """the overflow attribute (`init_overflow_attr`) of class `cid`, inherited like the key; None = none"""
+    cd = class_desc(fam, cid)
+    if cd.get("ovf") is not None:
+        return cd["ovf"]
+    if cd.get("base") is not None:
+        return effective_ovf(fam, cd["base"])
+    return None
+
+
+def ovf_lines(fam):
+    """`ovf <class> <attr>` protocol lines (after the `class` lines) for the classes that collect extra keywords"""
+    out = []
+    for cd in fam["classes"]:
+        o = effective_ovf(fam, cd["id"])
+        if o is not None:
+            out.append(f"ovf {cd['id']} {o}")
     return out
 
 
@@ -479,7 +518,8 @@ def init_order(fam, cid):
     eff = effective_attrs(fam, cid)
     chain = [cid] + supers(fam, cid)
     rank = {c: len(chain) - i for i, c in enumerate(chain)}
-    return [a["name"] for a in sorted(eff, key=lambda a: rank.get(a.get("owner"), 0))]
+    # (the overflow attribute is not initialised by the loop: it is stored once, at the end)
+    return [a["name"] for a in sorted(eff, key=lambda a: rank.get(a.get("owner"), 0)) if not a.get("ovf")]
 
 
 def effective_key(fam, cid):
@@ -507,7 +547,8 @@ def class_lines(fam):
         key = effective_key(fam, cid)
         sup = supers(fam, cid)
         parts = ["class", str(cid), "_" if key is None else str(key), str(len(sup))] + [str(s) for s in sup]
-        parts += [str(len(attrs))] + [str(x) for x in init_order(fam, cid)]
+        order = init_order(fam, cid)
+        parts += [str(len(order))] + [str(x) for x in order]
         parts += [str(len(attrs))]
         for a in attrs:
             parts += [
@@ -523,10 +564,10 @@ def class_lines(fam):
     return lines
 
 
-def build_family(fam):
-    """family description -> {class id: real class}; cached per description"""
+def build_family(fam, fresh=False):
+    """family description -> {class id: real class}; cached per description (`fresh`: new classes, not cached)"""
     key = json.dumps(fam, sort_keys=True)
-    if key in _FAMILY_CACHE:
+    if key in _FAMILY_CACHE and not fresh:
         return _FAMILY_CACHE[key]
     Attr, spec_class = _sc["Attr"], _sc["spec_class"]
     classes = {}
@@ -578,6 +619,8 @@ def build_family(fam):
             if cd.get("key") is not None:
                 kw["key"] = attr_name(cd["key"])
             kw["bootstrap"] = bool(cd.get("eager", True))
+            if cd.get("ovf") is not None:
+                kw["init_overflow_attr"] = attr_name(cd["ovf"])
             if cd.get("dnc") is not None:
                 # do_not_copy differing from the parent class: inherited Attr specs are rebuilt
                 kw["do_not_copy"] = True if cd["dnc"] is True else [attr_name(a) for a in cd["dnc"]]
@@ -587,5 +630,6 @@ def build_family(fam):
         cls.__verif_id__ = cid
         cls.__verif_attrs__ = [a["name"] for a in effective_attrs(fam, cid)]
         classes[cid] = cls
-    _FAMILY_CACHE[key] = classes
+    if not fresh:
+        _FAMILY_CACHE[key] = classes
     return classes
